@@ -75,6 +75,23 @@ var c06Tmpls = []c06Tmpl{
 	{"upd_join", "update", "update $1 a join $2 b on a.id = b.id set a.c = b.c", 2},
 	{"upd_sub", "update", "update $1 set c = 'x' where id in (select id from $2)", 2},
 	{"upd_low_priority", "update", "update low_priority $1 set c = 'x' where id = 1", 1},
+	// multi-line statements: the table is referenced on a continuation line, and that physical
+	// line starts with `--`, `#` or `/*` WITHOUT being a comment (inside a string, or `--1`
+	// arithmetic); LF and CRLF line ends
+	{"sel_multiline", "select", "select id\nfrom $1\nwhere id in (select id\nfrom $2 )", 2},
+	{"sel_multiline_crlf", "select", "select id\r\nfrom $1\r\nwhere id in (select id\r\nfrom $2 )", 2},
+	{"sel_str_dashline1", "select", "select 'see\n-- regards', id from $1 where id = 1", 1},
+	{"sel_str_dashline", "select", "select id from $1 where c = 'see\n-- regards' and id in (select id from $2 )", 2},
+	{"sel_str_dashline_crlf", "select", "select id from $1 where c = 'see\r\n-- regards' and id in (select id from $2 )", 2},
+	{"sel_minusminus_line", "select", "select id from $1 where id = 5\n--1 or id in (select id from $2 )", 2},
+	{"sel_minusminus_crlf", "select", "select id from $1 where id = 5\r\n--1 or id in (select id from $2 )", 2},
+	{"sel_str_hashline", "select", "select id from $1 where c = 'see\n# regards' and id in (select id from $2 )", 2},
+	{"sel_str_blockline", "select", "select id from $1 where c = 'see\n/* regards' and id in (select id from $2 )", 2},
+	{"del_str_dashline", "delete", "delete from $1 where c = 'see\n-- regards' and id in (select id from $2 )", 2},
+	{"ins_str_dashline", "insert", "insert into $1 (id, c) select id, 'see\n-- regards' from $2", 2},
+	{"rep_str_dashline", "replace", "replace into $1 (id, c) select id, 'see\n-- regards' from $2", 2},
+	{"upd_str_dashline", "update", "update $1 set c = 'see\n-- regards' where id in (select id from $2 )", 2},
+	{"upd_minusminus_line", "update", "update $1 set c = 5\n--1 where id in (select id from $2 )", 2},
 }
 
 var c06TmplIdx = func() map[string]int {
@@ -119,6 +136,7 @@ var c06Dims = []struct {
 	{"sep", []string{"space", "nl", "tab"}},
 	{"linecomment", []string{"none", "before_name"}},
 	{"session", []string{"set", "unset"}},
+	{"lead", []string{"none", "dashline", "block"}}, // a comment line / block comment in front of the statement
 }
 
 func c06Default(dim string) string {
@@ -241,6 +259,12 @@ func (c c06Case) sql() string {
 	for i := t.Slots - 1; i >= 0; i-- {
 		s = strings.Replace(s, fmt.Sprintf("$%d", i+1), c.name(i), -1)
 	}
+	switch c.get("lead") {
+	case "dashline":
+		s = "-- trace\n" + s
+	case "block":
+		s = "/* trace */ " + s
+	}
 	return s
 }
 
@@ -328,7 +352,7 @@ func (h *c06Harness) observe(c c06Case) c06Obs {
 func TestVerif_C06(t *testing.T) {
 	rec := kit.Start("C06", "exploration",
 		fmt.Sprintf("case = template (%d: single table, alias, comma join, JOIN variants, sub-queries, UNION, multi-table DELETE/UPDATE, INSERT/REPLACE with and without INTO, INSERT..SELECT) x role vector over {unsharded, sharded, linked, global} for every table slot "+
-			"x name decorations {case (3), back-quotes (2), schema qualification (3), glued comment (3), separator (3), line comment before the name (2)} x session db {set, unset}; thorough enumerates the whole product; "+
+			"x name decorations {case (3), back-quotes (2), schema qualification (3), glued comment (3), separator (3), line comment before the name (2)} x session db {set, unset} x leading comment {none, `-- line`, block}; templates include multi-line statements (LF/CRLF) whose continuation line starts with --, # or /* without being a comment; thorough enumerates the whole product; "+
 			"non-trivial = references a sharded/linked/global table by construction AND confirmed by plan.NewChecker/BuildPlan (key = template|roles|decorations)", len(c06Tmpls)))
 	defer rec.Finish(t)
 	rec.Assume("table names resolve case-insensitively, as Gaea's parser-based analysis does (property text); decorations are semantically neutral by construction")
